@@ -128,10 +128,11 @@ func (p *Proc) define(st *State, hint string, t *Term) *Term {
 
 // heapGet returns the current term of a heap array, declaring the entry symbol on demand.
 func (p *Proc) heapGet(st *State, key string, sort Sort) *Term {
+	p.heapReads++
 	if t, ok := st.heap[key]; ok {
 		return t
 	}
-	if _, havocked := st.heap["$epoch"]; havocked && key != "$epoch" {
+	if havockedKey(st, key) {
 		t := p.freshConst("H_"+key, sort)
 		st.heap[key] = t
 		p.heapMonotoneEntry(st, key, t)
@@ -308,10 +309,6 @@ func (p *Proc) defineIte(st *State, hint string, c, a, b *Term) *Term {
 
 // oblige records a proof obligation pc => goal in the given state.
 func (p *Proc) oblige(st *State, kind, name string, tags []string, goal *Term, where string) {
-	if goal.S == "true" {
-		p.trivial++
-		return
-	}
 	ob := &Obligation{
 		Name:  p.fi.Name + ":" + name,
 		Kind:  kind,
@@ -321,6 +318,12 @@ func (p *Proc) oblige(st *State, kind, name string, tags []string, goal *Term, w
 		PC:    append([]*Term(nil), st.pc...),
 		Goal:  goal,
 		Decls: &p.decls,
+	}
+	if goal.S == "true" {
+		// decided while generating (e.g. a resolution counter that is literally 1)
+		p.trivial++
+		ob.Status, ob.Solver = "unsat", "syntactic"
+		ob.PC = nil
 	}
 	p.obls = append(p.obls, ob)
 }
@@ -333,4 +336,19 @@ func sortedKeys(m map[string]*Term) []string {
 	}
 	sort.Strings(ks)
 	return ks
+}
+
+func havockedKey(st *State, key string) bool {
+	if strings.HasPrefix(key, "$") || strings.HasPrefix(key, "G:$") {
+		return false
+	}
+	if _, ok := st.heap["$epoch"]; ok {
+		return true
+	}
+	for k := range st.heap {
+		if strings.HasPrefix(k, "$pfx:") && strings.HasPrefix(key, strings.TrimPrefix(k, "$pfx:")) {
+			return true
+		}
+	}
+	return false
 }
